@@ -213,6 +213,17 @@ def matrix_case(rec, rng, cid, scratch):
                   max(tot) - min(tot) <= 1e-12, "sample-weights",
                   "weights sum %r, class totals %s" % (float(np.sum(w)), cls),
                   case)
+        if np.all(yo1 == np.round(yo1)):
+            # the same ratings as integers (what a rating container hands
+            # out): same weights
+            wi = IR.compute_sample_weight(Xo, yo1.astype(np.int64))
+            rec.event("sample-weight vectors for integer responses")
+            rec.check(np.shape(wi) == np.shape(w) and
+                      np.allclose(np.asarray(wi, dtype=float), w, rtol=1e-12,
+                                  atol=0, equal_nan=False),
+                      "sample-weights/integer-responses",
+                      "integer responses give weights %s, the same ratings as "
+                      "floats %s" % (np.asarray(wi)[:6], w[:6]), case)
     rec.sample(case, limit=3)
 
 
